@@ -509,3 +509,99 @@ for _fwd in (0, 1, 2):
                 return {'native': 'ListClear', 'hops': fwd}
             _finish(res, e, e.explore(path), 'C11.K2:clear:')
     _mkc()
+
+
+for _fwd in (0, 1):
+    def _mks(fwd=_fwd):
+        sfx = ('', '.forwarded')[fwd]
+
+        @obligation('C11.K2.native_slice' + sfx, 'C11', programs=('vm',))
+        def n_slice(res, tier):
+            """list.slice(a, b) with the conversion of each argument to a position summarised (any usize, or an error): never panics,
+            returns a NEW list holding exactly the elements of the clamped range [a, b), the empty list when the range is empty,
+            propagates the conversion error; the receiver is unchanged.  The conversion itself is C11.K2.slice_index"""
+            res.bounds = {'length': 'any <= capacity < 2^40', 'positions': 'any usize each (the conversion of the numbers is summarised)', 'start state': ('fresh', 'forwarded once')[fwd]}
+            W = NativeWorld()
+            e = W.e
+            RES = W.P.enum_def('Result')
+
+            def m_index(e_, a, c):
+                k = len(e_.path_state.setdefault('positions', []))
+                if e_.fork_bool(z3.Bool(f'position{k}_rejected')):
+                    e_.path_state['positions'].append(None)
+                    le = W.P.enum_def('laythe_core::LyError') or W.P.enum_def('LyError')
+                    er = EnumV('LyError', le.vindex['Err'], {'Err': {0: Cell(Opaque('Instance', 'not_an_integer'))}}, None, le)
+                    return EnumV('Result<usize, LyError>', 1, {'Err': {0: Cell(er)}}, None, RES)
+                p = z3.BitVec(f'position{k}', 64)
+                e_.path_state['positions'].append(p)
+                return EnumV('Result<usize, LyError>', 0, {'Ok': {0: Cell(p)}}, None, RES)
+            e.model(r'^(laythe_lib::)?(\w+::)*ListSlice::index$', m_index)
+
+            def path(e):
+                lst, blk0, seq, n, cap = W.new_list(e)
+                if fwd:
+                    W.grow_once(e, lst, n, cap)
+                old = lambda i: z3.Select(seq.arr, i)
+                av, a = W.num(e, 'a')
+                bvv, b = W.num(e, 'b')
+                nblocks = len(e.path_state['blocks'])
+                r = W.call_native(e, 'ListSlice', [W.list_value(e, lst), av, bvv])
+                fin = W.final_block(e, blk0)
+                ln, cp, el = W.view(e, fin)
+                e.check(ln == n, 'slice: the receiver keeps its length')
+                ok = isinstance(r, EnumV) and r.tag == 0
+                pos = e.path_state.get('positions', [])
+                e.check(ok == (len(pos) == 2 and None not in pos), 'slice: succeeds exactly when both arguments convert to positions')
+                if ok:
+                    e.check(len(e.path_state['blocks']) == nblocks + 1, 'slice: the result is a new list')
+                    nb = e.path_state['blocks'][-1]
+                    ln2, cp2, el2 = W.view(e, nb)
+                    s_ = pos[0]
+                    t_ = z3.If(z3.UGT(pos[1], n), n, pos[1])
+                    want_len = z3.If(z3.ULE(s_, t_), t_ - s_, bv(0, 64))
+                    e.check(ln2 == want_len, 'slice: the new list has exactly the elements of the clamped range')
+                    i = z3.BitVec('i', 64)
+                    e.check(z3.Implies(z3.ULT(i, ln2), el2(i) == old(s_ + i)), 'slice: the new list holds the elements of the range, in order')
+                    e.check(z3.ULE(ln2, cp2), 'slice: the new list is well formed')
+                return {'native': 'ListSlice', 'ok': ok}
+            _finish(res, e, e.explore(path), 'C11.K2:slice:')
+    _mks()
+
+
+@obligation('C11.K2.slice_index', 'C11', programs=('vm',))
+def n_slice_index(res, tier):
+    """ListSlice::index for every number x and any list length: integral x >= 0 is the position x (saturating), integral x < 0 counts
+    from the end and stops at 0, anything else (fractions, NaN, infinities) raises"""
+    res.bounds = {'length': 'any < 2^40', 'x': 'every f64'}
+    W = NativeWorld()
+    e = W.e
+    P = W.P
+    f = [x for x in P.fns if x.name.endswith('::index') and 'primitives/list.rs' in x.name and 'ListSlice' not in x.name]
+    src = P.items.files['laythe_lib/src/global/primitives/list.rs']
+    import re
+    m = re.search(r'^impl ListSlice \{', src, re.M)
+    line = src.count('\n', 0, m.start()) + 1
+    f = [x for x in P.fns if x.name.endswith('::index') and f'<impl at laythe_lib/src/global/primitives/list.rs:{line}:' in x.name]
+    assert len(f) == 1, [x.name for x in f]
+    RES = P.enum_def('Result')
+    e.model(r'^(std::result::|core::result::)?Result::expect_err$', lambda e_, a, c: e_.payload0(a[0], 'Err') if isinstance(a[0], EnumV) and a[0].tag == 1 else (_ for _ in ()).throw(PathEnd('panic', 'expect_err on Ok')))
+
+    def path(e):
+        n = z3.BitVec('len', 64)
+        e.add_constraint(z3.ULT(n, 1 << 40))
+        seq = e.fresh_seq('Value', NameBacking('items'), n)
+        x = z3.FP('x', z3.Float64())
+        me = e.fresh('ListSlice', 'native_self') if P.struct_def('ListSlice') else Struct('ListSlice', {}, None)
+        r = e.call(f[0], [Ref(Cell(me)), Ref(Cell(Opaque('Hooks', 'hooks'))), SliceRef(seq, bv(0, 64), n), x])
+        ok = isinstance(r, EnumV) and r.tag == 0
+        e.check(z3.BoolVal(ok) == _integral(x), 'slice position: accepted exactly for integral numbers')
+        if ok:
+            p = e.payload0(r, 'Ok')
+            zero = z3.FPVal(0.0, z3.Float64())
+            mag = z3.fpToUBV(z3.RTZ(), z3.fpAbs(x), z3.BitVecSort(64))
+            small = z3.fpLT(z3.fpAbs(x), _fp_of(bv(1 << 62, 64)))
+            e.check(z3.Implies(z3.And(small, z3.fpGEQ(x, zero)), p == mag), 'slice position: a non-negative integer is that position')
+            e.check(z3.Implies(z3.And(small, z3.fpLT(x, zero)), p == z3.If(z3.UGT(mag, n), bv(0, 64), n - mag)), 'slice position: a negative integer counts from the end and stops at the start')
+            e.check(z3.Implies(z3.Not(small), z3.If(z3.fpGEQ(x, zero), z3.UGE(p, 1 << 62), p == 0)), 'slice position: huge magnitudes saturate')
+        return {'ok': ok}
+    _finish(res, e, e.explore(path), 'C11.K2:slice_index:')
